@@ -36,7 +36,7 @@ def run(pid, tier, seed):
         return vlib.generate_and_replay("IprSpecifiersMC", "%s-%s" % (pid, j[0]), j[1], exe, invariants=["Laws"],
                                         workers=8 if not q else 3, timeout=3000, heap="8g")
 
-    tdir = os.path.join(vlib.BUILD, "traces")
+    tdir = vlib.trace_dir()
     os.makedirs(tdir, exist_ok=True)
     tp = os.path.join(tdir, "%s-%s-%d.ndjson" % (pid, tier, seed))
     vlib.record_trace(exe, ["record", "--seed", seed, "--len", 400 if q else 1500, "--runs", 3 if q else 8], tp)
